@@ -66,21 +66,26 @@ func (p RemotePackage) subPathString(subPath string) string {
 	}
 
 	// The weird syntax we've inherited from go-getter expects the URL's
-	// query string to appear after the subpath portion, so we need to
-	// now tweak the package URL to be a sub-path URL instead.
-	subURL := p.url // shallow copy
-	subURL.Path += "//" + subPath
-	if subURL.RawPath != "" {
-		// The package's path was spelled in a way the default encoding
-		// would not reproduce (for example with a percent-escape that is
-		// not required). Extend that spelling too, or the URL falls back
-		// to the default encoding and names a different package.
-		subURL.RawPath += "//" + (&url.URL{Path: subPath}).EscapedPath()
+	// query string to appear after the subpath portion. The parser cuts the
+	// sub-path out of the text before it parses the URL and takes it
+	// literally, so it is printed literally here too, between the URL proper
+	// and its query: making it part of the URL's path would percent-escape
+	// it on the way out (and, because escaping then governs the whole path,
+	// could respell the package's own path as well).
+	pkgURL := p.url // shallow copy
+	query, forceQuery, fragment := pkgURL.RawQuery, pkgURL.ForceQuery, pkgURL.EscapedFragment()
+	pkgURL.RawQuery, pkgURL.ForceQuery, pkgURL.Fragment, pkgURL.RawFragment = "", false, "", ""
+	ret := pkgURL.String() + "//" + subPath
+	if query != "" || forceQuery {
+		ret += "?" + query
 	}
-	if subURL.Scheme == p.sourceType {
-		return subURL.String()
+	if fragment != "" {
+		ret += "#" + fragment
 	}
-	return p.sourceType + "::" + subURL.String()
+	if pkgURL.Scheme == p.sourceType {
+		return ret
+	}
+	return p.sourceType + "::" + ret
 }
 
 // SourceType returns the source type component of the package address.
